@@ -91,7 +91,7 @@ UNITS["C13"] = [
 UNITS["C14"] = [
     dict(test="TestC14_Families", quick=dict(), thorough=dict(timeout=3000)),
     dict(test="TestC14_RandomTrees", quick=dict(checks=400, shards=2), thorough=dict(checks=3000, shards=4)),
-    dict(test="TestC14_GeneratedFamilies", quick=dict(checks=25, shards=4, shrinktime="30s"), thorough=dict(checks=250, shards=8, shrinktime="60s")),
+    dict(test="TestC14_GeneratedFamilies", quick=dict(checks=25, shards=4, shrinktime="30s"), thorough=dict(checks=120, shards=8, shrinktime="60s", timeout=3000)),
 ]
 
 UNITS["C15"] = [
